@@ -31,7 +31,7 @@ man = {
     'hooks': {
         'guard': 'WELL_ID_DLISWRITER_VERIF',
         'enable': 'environment variable WELL_ID_DLISWRITER_VERIF=1 set by vf/run.py for every worker process; pure-Python repo, nothing to build (workers import /repo/src directly with a private pycache prefix)',
-        'baseline_off_cmd': 'cd /repo && env -u WELL_ID_DLISWRITER_VERIF /venv/bin/python -m pytest -ra -q -p no:cacheprovider --timeout=900 --continue-on-collection-errors -n 4',
+        'baseline_off_cmd': 'cd /repo && env -u WELL_ID_DLISWRITER_VERIF /venv/bin/python -m pytest -ra -q -p no:cacheprovider --timeout=900 --continue-on-collection-errors',
         'source_commits': json.load(open('/verif/hooks_commits.json')) if os.path.exists('/verif/hooks_commits.json') else [],
         'add_only': True,
     },
